@@ -226,7 +226,9 @@ def rc_new(mode, cols, kindof, rows=None):
     if mode == "arr":
         return RowCollector(list(cols), rows, array=True)
     if mode == "typed":
-        return RowCollector({c: dict(dtype={"int": int, "str": str}[kindof[c]]) for c in cols}, rows, array=True)
+        import numpy as np
+        dt = {"int": int, "str": str, "uint8": np.uint8, "uint64": np.uint64, "float": float}
+        return RowCollector({c: dict(dtype=dt[kindof[c]]) for c in cols}, rows, array=True)
     raise C.MachineryError("mode " + mode)
 
 
@@ -328,10 +330,11 @@ PT_NPOS = 4
 RC_KIND = {"rcl": ("list", ["a", "b", "c"], {"a": "int", "b": "str", "c": "int"}),
            "rca": ("arr", ["a", "b", "c"], {"a": "int", "b": "int", "c": "int"}),
            "rct": ("typed", ["a", "b", "c"], {"a": "int", "b": "str", "c": "int"}),
+           "rcu": ("typed", ["a", "b", "c"], {"a": "uint8", "b": "uint64", "c": "float"}),
            "rcn": ("list", [], {"a": "int", "b": "str", "c": "int"})}
 
 
-ALL_STATEFUL = ["pt", "pl", "rcl", "rca", "rct", "rcn"]
+ALL_STATEFUL = ["pt", "pl", "rcl", "rca", "rct", "rcu", "rcn"]
 
 
 def cfg_module(table, machines, init="{<<>>}", slim_sort=False):
@@ -345,6 +348,7 @@ X == <<1, 120>>
 YY == <<1, 121, 121>>
 KO == [a |-> "int", b |-> "str", c |-> "int"]
 KA == [a |-> "int", b |-> "int", c |-> "int"]
+KU == [a |-> "uint8", b |-> "uint64", c |-> "float"]
 ABC == <<"a", "b", "c">>
 D1(r) == << <<"a", r[1]>>, <<"b", r[2]>>, <<"c", r[3]>> >>
 D2(r) == << <<"c", r[3]>>, <<"a", r[1]>>, <<"b", r[2]>> >>
@@ -363,6 +367,8 @@ MCRCConfs == [
   rca |-> [mode |-> "arr", cols |-> ABC, kindof |-> KA, rows |-> {{A1, A2, A3}}, dicts |-> {{D2(A3)}},
            short |-> {'{<<I(1)>>}' if t else '{}'}, baddicts |-> {{}}, sortnames |-> {sort3}],
   rct |-> [mode |-> "typed", cols |-> ABC, kindof |-> KO, rows |-> {{R1, R2, R3}}, dicts |-> {{D2(R2)}},
+           short |-> {{}}, baddicts |-> {{}}, sortnames |-> {sort3}],
+  rcu |-> [mode |-> "typed", cols |-> ABC, kindof |-> KU, rows |-> {{A1, A2, A3}}, dicts |-> {{D2(A2)}},
            short |-> {{}}, baddicts |-> {{}}, sortnames |-> {sort3}],
   rcn |-> [mode |-> "list", cols |-> <<>>, kindof |-> KO, rows |-> {{}}, dicts |-> {{D1(R1), D2(R2), D1(R3)}},
            short |-> {'{<<I(1), I(2)>>}' if t else '{}'}, baddicts |-> {{}}, sortnames |-> {{"a", "b", "nocol"}}] ]
@@ -682,12 +688,13 @@ STRS = ["a", "b", "ab", "ba", "abc", "b", "c", "B", "a0"]
 def rand_plan_rc(rnd, maxops):
     mode = rnd.choice(["list", "list", "arr", "typed", "nocols"])
     names = ["p", "q", "r", "s"][:rnd.randint(1, 4)]
-    kindof = {n: ("int" if mode == "arr" else rnd.choice(["int", "str"])) for n in names}
+    kindof = {n: ("int" if mode == "arr" else rnd.choice(["int", "uint8", "uint64", "float", "str", "str"]) if mode == "typed"
+                  else rnd.choice(["int", "str"])) for n in names}
     multi = mode != "typed" or rnd.random() < 0.3
     strs = STRS if multi else ["a", "b", "c", "B"]
 
     def cell(n):
-        return enc(rnd.randint(0, 4) if kindof[n] == "int" else rnd.choice(strs))
+        return enc(rnd.randint(0, 4) if kindof[n] != "str" else rnd.choice(strs))
     cols = [] if mode == "nocols" else names
     row = lambda: [cell(n) for n in (cols or names)]        # in the order of the existing columns
     rows = [row() for _ in range(rnd.randint(0, 3))] if cols and rnd.random() < 0.4 else []
@@ -823,8 +830,8 @@ def hist_plan(thorough):
         for f in ALLF:
             runs.append((f"h-pt-{k}-{f}", dict(depth=5, rows=5, machines=["pt"], firstkeys=[k], firstflavs=[f])))
     runs.append(("h-pl", dict(depth=5, rows=5, machines=["pl"])))
-    runs += [("h-" + c, dict(depth=5, rows=5, machines=[c], slim_sort=True)) for c in ("rcl", "rca", "rct", "rcn")]
-    runs += [("h4-rc", dict(depth=4, rows=5, machines=["rcl", "rca", "rct", "rcn"]))]
+    runs += [("h-" + c, dict(depth=5, rows=5, machines=[c], slim_sort=True)) for c in ("rcl", "rca", "rct", "rcu", "rcn")]
+    runs += [("h4-rc", dict(depth=4, rows=5, machines=["rcl", "rca", "rct", "rcu", "rcn"]))]
     return runs
 
 
